@@ -216,48 +216,59 @@ pub fn confirm_and_minimise(exe: &Path, vf: &Path, dest: &Path) -> Option<Confir
 /// the world (same loop, same accounting, same files - hence the same allocation history).
 /// Returns true if the worker again writes a violation file for (property, run) with the
 /// same clause. This is what makes defects keyed on addresses reproducible.
-pub fn worker_rerun_reproduces(exe: &Path, j: &J, scratch: &Path) -> bool {
-    let get = |k: &str| j.get("worker_rerun").and_then(|w| w.get(k)).and_then(|v| v.as_u64()).or_else(|| j.get("worker").and_then(|w| w.get(k)).and_then(|v| v.as_u64()));
-    let (first, stride) = match (get("first"), get("stride")) {
-        (Some(f), Some(s)) => (f, s.max(1)),
-        _ => return false,
+pub fn worker_rerun_reproduces(_exe: &Path, j: &J, _scratch: &Path) -> bool {
+    // The heap's evolution is sensitive to its initial state (argv strings live in it), so the
+    // re-run uses the recorded command line verbatim: same binary path, same --out prefix.
+    let argv: Vec<String> = match j.get("worker").and_then(|w| w.get("argv")).and_then(|a| a.as_arr()) {
+        Some(a) => a.iter().filter_map(|v| v.as_str().map(|s| s.to_string())).collect(),
+        None => return false,
     };
-    let run = match j.get("run").and_then(|v| v.as_u64()) {
-        Some(r) if r >= first => r,
-        _ => return false,
-    };
-    let count = (run - first) / stride + 1;
-    let property = j.get("property").and_then(|v| v.as_str()).unwrap_or("");
-    let clause = j.get("clause").and_then(|v| v.as_str()).unwrap_or("");
-    let profile = j.get("profile").and_then(|v| v.as_str()).unwrap_or("C19");
-    let seed = j.get("seed").and_then(|v| v.as_u64()).unwrap_or(1);
-    let _ = std::fs::remove_dir_all(scratch);
-    if std::fs::create_dir_all(scratch).is_err() {
+    if argv.len() < 2 {
         return false;
     }
-    let out = scratch.join("w");
-    let status = Command::new(exe)
-        .arg("worker")
-        .args(["--prop", profile])
-        .args(["--seed", &seed.to_string()])
-        .args(["--first", &first.to_string()])
-        .args(["--stride", &stride.to_string()])
-        .args(["--count", &count.to_string()])
-        .args(["--budget-ms", "7200000"])
-        .args(["--max-viol", "1000000"])
-        .args(["--out", out.to_str().unwrap_or("")])
-        .args(["--cpu", &(first % online_cpus().max(1) as u64).to_string()])
-        .stdout(Stdio::null())
-        .stderr(Stdio::null())
-        .status();
-    let ok = match status {
-        Ok(_) => {
-            let vf = format!("{}.viol-{}-{}.json", out.display(), property, run);
-            std::fs::read_to_string(&vf).ok().and_then(|t| json::parse(&t).ok()).map(|v| v.get("clause").and_then(|c| c.as_str()) == Some(clause)).unwrap_or(false)
-        }
-        Err(_) => false,
+    let run = match j.get("run").and_then(|v| v.as_u64()) {
+        Some(r) => r,
+        None => return false,
     };
-    let _ = std::fs::remove_dir_all(scratch);
+    let property = j.get("property").and_then(|v| v.as_str()).unwrap_or("");
+    let clause = j.get("clause").and_then(|v| v.as_str()).unwrap_or("");
+    let out = match argv.iter().position(|a| a == "--out").and_then(|i| argv.get(i + 1)) {
+        Some(o) => o.clone(),
+        None => return false,
+    };
+    if let Some(dir) = Path::new(&out).parent() {
+        let _ = std::fs::create_dir_all(dir);
+    }
+    let vf = format!("{}.viol-{}-{}.json", out, property, run);
+    let keep = format!("{}.orig", vf);
+    let had_orig = std::fs::rename(&vf, &keep).is_ok();
+    let _ = std::fs::remove_file(format!("{}.progress", out)); // a stale one would stop the re-run at once
+    let mut child = match Command::new(&argv[0]).args(&argv[1..]).stdout(Stdio::null()).stderr(Stdio::null()).spawn() {
+        Ok(c) => c,
+        Err(_) => return false,
+    };
+    // stop it from outside once it is past the world in question (nothing inside the worker
+    // may differ from the original invocation)
+    let progress = format!("{}.progress", out);
+    let t0 = Instant::now();
+    loop {
+        match child.try_wait() {
+            Ok(Some(_)) => break,
+            Ok(None) => {}
+            Err(_) => break,
+        }
+        let at = std::fs::read_to_string(&progress).ok().and_then(|s| s.trim().parse::<u64>().ok()).unwrap_or(0);
+        if at > run || t0.elapsed().as_secs() > 3600 {
+            let _ = child.kill();
+            let _ = child.wait();
+            break;
+        }
+        std::thread::sleep(std::time::Duration::from_millis(50));
+    }
+    let ok = std::fs::read_to_string(&vf).ok().and_then(|t| json::parse(&t).ok()).map(|v| v.get("clause").and_then(|c| c.as_str()) == Some(clause)).unwrap_or(false);
+    if had_orig {
+        let _ = std::fs::rename(&keep, &vf);
+    }
     ok
 }
 
@@ -271,7 +282,7 @@ fn confirm_by_worker_rerun(exe: &Path, j: &J, dest: &Path, property: String, cla
     let run = j.get("run").and_then(|v| v.as_u64())?;
     let mut jj = j.clone();
     jj.put("worker_rerun", J::obj().set("first", J::u(first)).set("stride", J::u(stride)).set("count", J::u((run - first) / stride + 1)));
-    jj.put("worker_rerun_note", J::s("this violation reproduces only inside the worker invocation that found it (same worlds, same accounting, same allocation history - typically state keyed on addresses): replay re-runs that worker slice and looks for the same (run, clause)"));
+    jj.put("worker_rerun_note", J::s("this violation reproduces only inside the worker invocation that found it (same worlds, same accounting, same allocation history - typically state keyed on addresses): replay re-runs worker.argv verbatim (same binary path, same --out prefix: the heap's initial state is part of the recipe) and looks for the same (run, clause)"));
     jj.put("minimised", J::Bool(false));
     std::fs::write(dest, jj.to_pretty()).ok()?;
     println!("reproduced by re-running the worker slice first={} stride={} up to run {}", first, stride, run);
